@@ -55,6 +55,14 @@ B(cards, k, style, u, v) ==
          RSub(RNat(2), RDiv(v, u)))
 TestBound(u, v) == RDiv(RNat(2), RSub(RNat(2), RDiv(v, u)))      \* 2/(2 - v/u)
 
+\* ONEAudit padding (CVR.pool_contests / add_pool_contests): every pooled CVR of a pool in which some pooled CVR lists the
+\* contest is made to list it (with no votes: class "n")
+Padded(cards) ==
+    [k \in 1..Len(cards) |->
+        IF cards[k].pool # "none" /\ cards[k].cs = "x"
+           /\ \E j \in 1..Len(cards) : cards[j].pool = cards[k].pool /\ cards[j].cs # "x"
+        THEN [cards[k] EXCEPT !.cs = "n"] ELSE cards[k]]
+
 \* cards (positions) contributing data for the contest: under audit and, under style, within the threshold
 \* (position k carries the k-th smallest sample number; thr = position of the contest's last card)
 Contributors(cards, style, thr) == {k \in Idx(cards, style) : style => k <= thr}
